@@ -238,7 +238,7 @@ class ZoneAnalysis:
                 n = self.v(e_)
                 d = st.get('defs', {}).get(n)
                 if d is not None:
-                    return Lin(d.x, d.y, d.c)
+                    return self.unfreeze(st, Lin(d.x, d.y, d.c))     # frozen operands that still equal their variables stand for them
                 return Lin(n, Z, 0)
             if c is not None:
                 return Lin(Z, Z, c)
@@ -732,6 +732,9 @@ class ZoneAnalysis:
                     self.kill_var(st, g)
                     self.vname[g] = self.vname.get(src, src) + "'"
                     st['z'].assign(g, src, 0)
+                    if not hasattr(self, 'ghost_src'):
+                        self.ghost_src = {}
+                    self.ghost_src[g] = src
                     names.append(g)
                 st.setdefault('defs', {})
                 st['defs'] = dict(st['defs'])
@@ -828,8 +831,25 @@ class ZoneAnalysis:
                     if a.get('id') in st['ptr']:
                         del st['ptr'][a['id']]
 
+    def unfreeze(self, st, l):
+        """a frozen copy that still equals the variable it was taken from stands for that variable"""
+        if l is None:
+            return l
+        gs = getattr(self, 'ghost_src', {})
+        x, y = l.x, l.y
+        for which in ('x', 'y'):
+            g = x if which == 'x' else y
+            src = gs.get(g)
+            if src is not None and st['z'].entails(g, src, 0) and st['z'].entails(src, g, 0):
+                if which == 'x':
+                    x = src
+                else:
+                    y = src
+        return Lin(x, y, l.c)
+
     def need_range(self, st, p, ln, e, what, ok_len):
         base, off = p
+        ln = self.unfreeze(st, ln)
         loc = locline(e.get('loc', '?'))
         if off is None:
             self.obligations.append((what, show(e)[:90], loc, False, 'offset not linear'))
